@@ -449,6 +449,33 @@ func (t *tfunc) mkIf(cond string, swap bool, a, b br) br {
 // ---- statements ----------------------------------------------------------------------
 
 func (t *tfunc) stmt(s ast.Stmt, c *ctx, k func() block) block {
+	switch s.(type) {
+	case *ast.AssignStmt, *ast.DeclStmt, *ast.IncDecStmt:
+		// simple statements: slices handed to untranslated callees are re-bound afterwards
+		t.havoc = nil
+		return t.stmt1(s, c, func() block {
+			var out block
+			hs := t.havoc
+			t.havoc = nil
+			for _, h := range hs {
+				out = append(out, t.assign(h.arg, h.term)...)
+			}
+			return append(out, k()...)
+		})
+	case *ast.ReturnStmt:
+		return t.stmt1(s, c, k)
+	}
+	t.havoc = nil
+	b := t.stmt1(s, c, func() block {
+		if len(t.havoc) > 0 {
+			t.bad(s, "a slice is handed to an untranslated callee inside a compound statement's header")
+		}
+		return k()
+	})
+	return b
+}
+
+func (t *tfunc) stmt1(s ast.Stmt, c *ctx, k func() block) block {
 	switch v := s.(type) {
 	case *ast.EmptyStmt:
 		return k()
